@@ -110,6 +110,34 @@ theorem acknowledged_survive (d : Disk) (ops : List Store.Op) (inflight : Option
       · exact Or.inl rfl
       · exact Or.inr ⟨op, rfl⟩
 
+/-- what the kill-and-reopen stream checks: a process that runs the script `all` and is killed after completing
+`k` operations, of which the parent had seen `a ≤ k` acknowledged, restarts in the state after a prefix of the
+script that contains every acknowledged operation - `a ≤ k' ≤ length all` and no torn operation -/
+theorem recovered_is_prefix_beyond_acked (d : Disk) (all : List Store.Op) (a k : Nat) (committed : Bool) (d1 : Disk)
+    (hak : a ≤ k) (hk : k ≤ all.length)
+    (h : runProcess d (all.take k) ((all[k]?).map (fun op => (op, committed))) = .ok d1) :
+    ∃ d0 k', openDisk d = .ok d0 ∧ a ≤ k' ∧ k' ≤ all.length ∧ d1.store = Store.run d0.store (all.take k') := by
+  unfold runProcess at h
+  cases hm : openDisk d with
+  | error e => simp [hm] at h
+  | ok d0 =>
+    simp only [hm] at h
+    cases h
+    cases hop : all[k]? with
+    | none => exact ⟨d0, k, rfl, hak, hk, by simp⟩
+    | some op =>
+      have hlt : k < all.length := by
+        rcases Nat.lt_or_ge k all.length with h | h
+        · exact h
+        · rw [List.getElem?_eq_none h] at hop; cases hop
+      cases committed with
+      | false => exact ⟨d0, k, rfl, hak, hk, by simp⟩
+      | true =>
+        refine ⟨d0, k + 1, rfl, by omega, hlt, ?_⟩
+        have : all.take (k + 1) = all.take k ++ [op] := by
+          rw [List.take_succ, hop]; rfl
+        simp [this, Store.run, List.foldl_append]
+
 /-! ### the multi-key operation: migrating a trial balance -/
 
 /-- a node linked to a wallet has no trial balance left -/
